@@ -8,9 +8,9 @@ T1_MODULES = {
     "C16": ["vt.contracts.syntactic"],
     "C15": ["vt.contracts.diskdict_effects"],
     "C13": ["vt.contracts.syntactic", "vt.contracts.misc_small", "vt.contracts.cache_key"],
-    "C01": ["vt.contracts.legs_rules", "vt.contracts.core_mutators", "vt.contracts.utils_maxcounter", "vt.contracts.einsum_eq", "vt.contracts.tensordot_recipe"],
+    "C01": ["vt.contracts.legs_rules", "vt.contracts.core_mutators", "vt.contracts.utils_maxcounter", "vt.contracts.einsum_eq", "vt.contracts.tensordot_recipe", "vt.contracts.core_legs"],
     "C02": ["vt.contracts.legs_rules", "vt.contracts.syntactic", "vt.contracts.core_mutators", "vt.contracts.utils_maxcounter"],
-    "C03": ["vt.contracts.utils_maxcounter", "vt.contracts.legs_rules", "vt.contracts.core_stats"],
+    "C03": ["vt.contracts.utils_maxcounter", "vt.contracts.legs_rules", "vt.contracts.core_stats", "vt.contracts.core_legs"],
     "C04": ["vt.contracts.utils_maxcounter", "vt.contracts.legs_rules", "vt.contracts.core_stats", "vt.contracts.syntactic", "vt.contracts.core_mutators"],
     "C06": ["vt.contracts.core_slicing"],
     "C07": ["vt.contracts.utils_maxcounter", "vt.contracts.syntactic", "vt.contracts.slicer_costs"],
@@ -18,7 +18,7 @@ T1_MODULES = {
     "C09": ["vt.contracts.con_cost", "vt.contracts.processor_legs"],
     "C10": ["vt.contracts.path_convert"],
     "C14": ["vt.contracts.reusable_policy"],
-    "C18": ["vt.contracts.legs_rules", "vt.contracts.processor_legs"],
+    "C18": ["vt.contracts.legs_rules", "vt.contracts.processor_legs", "vt.contracts.core_legs"],
     "C19": ["vt.contracts.exponent"],
     "C20": ["vt.contracts.compressed_tracker"],
 }
